@@ -13,10 +13,15 @@ Tables: `Gen/SgrMap.lean` (`SGR_STYLE_MAP`, `Style._style_map`, translated on ev
 Everything here holds for lines, texts, styles, histories of any size.  `decide +kernel` is used
 only for the two table obligations and for closed witnesses that look a character up in those tables.
 
-The code variants (`Ansi.Cfg`): `intRaises` (F10), `flushRaw` (F20) — repaired in /repo — and `emptyIgnored` (F27),
-`resetDropsLink` (F28), `offSingle` (F29), `crErases` (F31), `sgrLazy` (F32), `oscStOnly` (F33) are `true` for rich 9.10.0 as found; the full-strength theorems are
-proved for the repaired variant and the `old_…` theorems show by evaluation that the variant as found violates
-them.  The round trip `decode_encode` holds for every variant (the encoder never writes what F27-F29 are about).
+The code variants (`Ansi.Cfg`), each `true` for rich 9.10.0 as found and `false` for the repaired code /repo contains
+now: `intRaises` (F10, fix 8dc20cb), `flushRaw` (F20, fix c4ae818), `emptyIgnored` (F27, fix eb349e5), `resetDropsLink`
+(F28, fix c143415), `offSingle` (F29, fix b9c1000), `crErases` (F31, fix 70d7986), `sgrLazy` (F32, fix a4759bf),
+`oscStOnly` (F33, fix 37dd303).  The full-strength theorems are proved for the repaired variant (each names the flags it
+needs as hypotheses) and the `old_…` theorems show by evaluation that the variant as found violates them.  The round
+trip `decode_encode` holds for every variant (the encoder never writes anything the eight variants read differently).
+Proofs: `Lemmas/AnsiTables`, `AnsiSgr`, `AnsiState`, `AnsiColor`, `AnsiEncode`, `AnsiTok`, `AnsiRound`, `AnsiRoundTrip`,
+`AnsiLine` (round trip, totality), `AnsiProxy` (proxy against `units`), `AnsiEcma`, `AnsiForeign` (ECMA-48 reading of SGR),
+`AnsiCsi` (other CSI, carriage returns), `AnsiLegacy`, `AnsiLive`, `AnsiLiveStreams` (the proxy inside C10's display).
 
 A carriage return that is NOT at the end of a line is outside the statement: `decode_line` keeps what follows the
 last one ("what is visible after the cursor returned": `10%\r50%\r100%` → `100%`), which is what the code means
@@ -40,12 +45,15 @@ Escape sequences that are neither SGR, OSC nor CSI — classification against "c
   number and is ignored like every invalid code — the text is complete and unstyled.  `decode_sgr_means_ecma` is about
   semicolon-separated numeric parameters; this form is outside it.
 
-Outside the statement (observed by the harness, not a theorem, not a check): `Live.stop` / `Progress.stop` do not
-flush the two proxies.  A partial line pending at `stop()` is not a *line written* (no newline yet) and no *flush*
-was asked for, which are the two things the property speaks of; nor is it lost — `io.IOBase.close` calls `flush`,
-so it is printed when the proxy object is collected (`proxy_flush_empties` covers that flush).  Where it lands
-(after the final frame, or later) is a matter of the display, not of this property; `proxy_two_streams` and
-`proxy_lines` say what is pending (`pending h`) and that it stays in the stream's own buffer until then.
+Outside the statement (observed by the harness and counted, not a check): WHERE a partial line pending at `stop()`
+lands.  Such text is not a *line written* (no newline yet) and no *flush* was asked for, which are the two things the
+property speaks of; nor is it lost.  In rich 9.10.0 as found `Live.stop` / `Progress.stop` did not flush the two
+proxies: `io.IOBase.close` calls `flush`, so the text was printed when the proxy object was collected
+(`proxy_flush_empties` covers that flush), after the final frame or later.  Since fix 4c3921f (a finding of C10, the
+display's property) `stop` flushes both proxies before the last refresh and the text lands above the final frame; on the
+model that placement is part of `live_screen_with_proxied_streams` below (the body's lines, then the pending text of
+stdout, then of stderr, then the last frame).  `proxy_two_streams` and `proxy_lines` say what is pending (`pending h`)
+and that it stays in the stream's own buffer up to that flush.
 -/
 namespace RichModel.C19
 open RichModel RichModel.Ansi RichModel.Style
@@ -67,7 +75,8 @@ theorem sgr_numbers_read_back : digitsOk = true := digits_ok
 /-! ## The decoder inverts the encoder -/
 
 /-- **decode_encode.**  For every line of segments satisfying `SegOk` (`noEsc`: no ESC / stripped control
-code in the text, no ESC / line break in link and link id, colours as the constructors build them, styles
+code in the text, no ESC / line break in link and link id, no `;` in the link id, no BEL in link and link id —
+BEL ends an OSC string in the repaired tokenizer —, colours as the constructors build them, styles
 with the constructors' invariant), every code variant and every blank decoder state (in particular a fresh
 decoder): `_render_buffer` on a truecolor terminal succeeds, `decode_line` of its output succeeds, leaves
 the decoder blank again, and yields **per character** the same character with the same attributes that
@@ -219,8 +228,8 @@ theorem proxy_two_streams (cfg : Ansi.Cfg) (hraw : cfg.flushRaw = false) (hint :
 /-- **live_write_is_proxy_write.**  The `Op.write` of C10's display model IS the `FileProxy.write` of this model —
 the same function on the same inputs: on a redirected stream it prints, through the display, exactly the lines
 `writeLoop` completes from the pending text and the written characters, and keeps exactly `writeLoop`'s new buffer
-pending.  (C10 restates the part of `proxy_lines` it needs as `stream_writes_print_complete_lines`; with this
-theorem the two models cannot drift apart: `cutNL_eq_completeLines`, `writeLoop_eq_pw`.) -/
+pending.  (C10 restates the part of `proxy_lines` it needs as `stream_writes_print_complete_lines`; with
+this theorem the two models cannot drift apart: `cutNL_eq_completeLines`, `writeLoop_eq_pw`.) -/
 theorem live_write_is_proxy_write (cfg : Live.Cfg) (fails : Nat → Bool) (st : Live.St) (e : Bool)
     (lines : List Live.Line) (tail : Live.Line) (hp : Live.proxied st e = true)
     (hnl : (∀ l ∈ lines, '\n' ∉ l) ∧ '\n' ∉ tail) (buf : List (List Char)) (hb : buf.flatten = Live.getBuf st e) :
